@@ -309,6 +309,9 @@ class HasherHybrid(CbMixin, ProgMixin):
         the progress mode
     progress_bar: [Optional] ProgressBar
         a progress bar object if progress mode is 2
+    pad : bool
+        zero-extend the final v1 piece and describe the padding file;
+        False for single file torrents, whose v1 payload is the file alone
     """
 
     def __init__(
@@ -317,6 +320,7 @@ class HasherHybrid(CbMixin, ProgMixin):
         piece_length: int,
         progress: int = 1,
         progress_bar=None,
+        pad: bool = True,
     ):
         """
         Construct Hasher class instances for each file in torrent.
@@ -329,6 +333,7 @@ class HasherHybrid(CbMixin, ProgMixin):
         self.root = None
         self.padding_piece = None
         self.padding_file = None
+        self.pad = pad
         self.amount = piece_length // BLOCK_SIZE
         self.progress = progress
         self.progbar = progress_bar
@@ -391,7 +396,7 @@ class HasherHybrid(CbMixin, ProgMixin):
             layer_hash = merkle_root(blocks)
             self.cb(layer_hash)
             self.layer_hashes.append(layer_hash)
-            if plength > 0:
+            if plength > 0 and self.pad:
                 self.padding_file = {
                     "attr": "p",
                     "length": plength,
@@ -441,6 +446,9 @@ class FileHasher(CbMixin, ProgMixin):
         the progress mode
     progress_bar: [Optional] ProgressBar
         a progress bar object if progress mode is 2
+    pad : bool
+        zero-extend the final v1 piece and describe the padding file;
+        False for single file torrents, whose v1 payload is the file alone
     """
 
     def __init__(
@@ -450,6 +458,7 @@ class FileHasher(CbMixin, ProgMixin):
         progress: int = 1,
         hybrid: bool = False,
         progress_bar=None,
+        pad: bool = True,
     ):
         """
         Construct Hasher class instances for each file in torrent.
@@ -462,6 +471,7 @@ class FileHasher(CbMixin, ProgMixin):
         self.root = None
         self.padding_piece = None
         self.padding_file = None
+        self.pad = pad
         self.amount = piece_length // BLOCK_SIZE
         self.end = False
         self.progress = progress
@@ -544,7 +554,7 @@ class FileHasher(CbMixin, ProgMixin):
                 self.progbar.close_out()
             self._calculate_root()
         if self.hybrid:
-            if plength > 0:
+            if plength > 0 and self.pad:
                 self.padding_file = {
                     "attr": "p",
                     "length": plength,
